@@ -880,6 +880,12 @@ func (vc *VC) applyPred(sc *SpecScope, pd *PredDef, args []*Value) *Value {
 		var ts, sorts []string
 		for _, a := range args {
 			t, ok := scalarOf(a)
+			if !ok && a.K == VStruct && a.T != nil {
+				// a struct of scalars is passed as its injective tuple
+				if p := vc.packStruct(a, a.T); p != "" {
+					t, ok = p, true
+				}
+			}
 			if !ok {
 				vc.specFail(sc, "ufunc %s: composite argument", pd.Name)
 			}
